@@ -15,6 +15,11 @@ CLAIMED = {
             "Every call site producing Result<_, S::Error|OutputError<S>> for a caller-supplied sink S is shown to "
             "propagate the error to the return place; none is unwrapped, swallowed or dead. Exhaustive over call "
             "sites, which is what 'for every k-th sink operation' quantifies over.", "4/C12"),
+    "C06": ("MPT/PAIR path rules over MIR CFGs with role-based anchors and wrapper summaries + ERRDISC in par",
+            "Every return path of the par entry point (incl. every `?` edge) after the worker spawn passes the stop "
+            "tokens, the worker joins and the hashing-thread stop+join; the worker returns every popped buffer; no "
+            "SourceError/EncodeError is unwrapped or handed to a diverging closure. These are the per-path "
+            "obligations behind 'for every fault position'. Liveness under interleavings is not decided.", "4/C06"),
     "C07": ("CHAIN + RANGE extraction from MIR vs documented ranges + ERRDISC on VerifyError + compile-fail "
             "witnesses (TYPESTATE) for Verified<T>",
             "Exhaustive over the config type tree: every nested Verify field is verified and propagated by its "
